@@ -317,3 +317,77 @@ pub fn long_header_cids(d: &[u8]) -> Option<(Vec<u8>, Vec<u8>)> {
     let scid = c.bytes(sl).ok()?.to_vec();
     Some((dcid, scid))
 }
+
+/// the unprotected header fields of one long-header packet (RFC 9000 17.2): none of them is
+/// covered by header protection
+#[derive(Clone, Debug, PartialEq)]
+pub struct LongHdr {
+    pub kind: Kind,
+    pub dcid: Vec<u8>,
+    pub scid: Vec<u8>,
+    /// Initial: the Token field; Retry: the Retry Token; otherwise empty
+    pub token: Vec<u8>,
+    /// Retry only: the 16-byte Retry Integrity Tag
+    pub retry_tag: Vec<u8>,
+}
+
+/// headers of all coalesced long-header packets of a datagram (a trailing short-header packet is
+/// not listed)
+pub fn long_headers(d: &[u8]) -> Vec<LongHdr> {
+    let mut out = Vec::new();
+    let mut rest = d;
+    loop {
+        let k = datagram_kind(rest);
+        match k {
+            Kind::Initial | Kind::ZeroRtt | Kind::Handshake => {
+                let mut c = Cur::new(rest);
+                let parsed = (|| -> Result<(LongHdr, usize), String> {
+                    c.bytes(5)?;
+                    let dl = c.u8()? as usize;
+                    let dcid = c.bytes(dl)?.to_vec();
+                    let sl = c.u8()? as usize;
+                    let scid = c.bytes(sl)?.to_vec();
+                    let mut token = Vec::new();
+                    if k == Kind::Initial {
+                        let tl = c.varint()? as usize;
+                        token = c.bytes(tl)?.to_vec();
+                    }
+                    let len = c.varint()? as usize;
+                    c.bytes(len)?;
+                    Ok((LongHdr { kind: k, dcid, scid, token, retry_tag: Vec::new() }, c.p))
+                })();
+                match parsed {
+                    Ok((h, p)) => {
+                        out.push(h);
+                        rest = &rest[p..];
+                    }
+                    Err(_) => break,
+                }
+            }
+            Kind::Retry => {
+                // RFC 9000 17.2.5: no Length field; the token runs up to the 16-byte integrity tag
+                let mut c = Cur::new(rest);
+                let parsed = (|| -> Result<LongHdr, String> {
+                    c.bytes(5)?;
+                    let dl = c.u8()? as usize;
+                    let dcid = c.bytes(dl)?.to_vec();
+                    let sl = c.u8()? as usize;
+                    let scid = c.bytes(sl)?.to_vec();
+                    let left = c.left();
+                    if left < 16 {
+                        return Err("retry too short".into());
+                    }
+                    let token = c.bytes(left - 16)?.to_vec();
+                    let retry_tag = c.bytes(16)?.to_vec();
+                    Ok(LongHdr { kind: k, dcid, scid, token, retry_tag })
+                })();
+                if let Ok(h) = parsed {
+                    out.push(h);
+                }
+                break;
+            }
+            _ => break,
+        }
+    }
+    out
+}
